@@ -67,6 +67,16 @@ def correspond(ctx):
         if dev is not None and dev > 1e-9:
             ctx.violation("dissipation", f"apply_dissipation(dt={desc['dt']}) differs from prod_k exp(-dt/2 gamma_k L_k^+L_k) applied to the dense state by {dev:.3e} "
                           f"(processes {desc['processes']})", {"oracle": "dissipation", **desc})
+    # MCWF: the operators handed to the dense trajectory solver
+    for k in range(ctx.scale(40, 600)):
+        mseed = int(ctx.rng.integers(0, 2**31))
+        desc, why = lottery.mcwf_operators_case(np.random.default_rng(mseed), int(ctx.rng.integers(2, 5)))
+        zero_first = any(p[2] == 0 for p in desc["processes"][:-1])
+        ctx.case(nontrivial_key=("mcwf-ops", mseed) if zero_first else None, validated=True)
+        ctx.count("mcwf_operator_lists")
+        if why:
+            ctx.mismatch("preprocess_mcwf jump operators / H_eff vs sqrt(gamma_k) L_k of the processes with positive strength (own strength, list order)",
+                         {**desc, "seed": mseed}, why, "own strength per process", key="mcwf-operators")
     # forced index -> applied process
     chosen_process_correspondence(ctx)
     # pipeline words with noise (no schedule)
@@ -212,6 +222,15 @@ def search(ctx):
         procs = lottery.random_processes(ctx.rng, L, nmax=3)
         solver, order = [("TJM", 1), ("TJM", 2), ("MCWF", 1)][k % 3]
         plan.append(dict(L=L, procs=procs, state="x+", solver=solver, order=order, dt=0.05, permute=bool(k % 2)))
+    # start from the process lists on which a correspondence diverged (small ones), with the solver concerned
+    for mm in ctx.mismatches[:20]:
+        c = mm.get("case")
+        if isinstance(c, dict) and "processes" in c and c.get("L", 9) <= 3 and len(c["processes"]) <= 4:
+            procs = [{"name": nm_, "sites": list(st_), "strength": float(g_)} for nm_, st_, g_ in c["processes"]]
+            solvers = [("MCWF", 1)] if mm.get("key") == "mcwf-operators" else [("TJM", 1), ("TJM", 2)]
+            for solver, order in solvers:
+                plan.insert(0, dict(L=c["L"], procs=procs, state="x+", solver=solver, order=order, dt=0.05, permute=False))
+    plan = plan[: len(plan) if not ctx.quick else 24]
     for a in plan:
         try:
             with common.time_limit(300):
